@@ -1,6 +1,8 @@
 package main
 
 import (
+	"fmt"
+	"os"
 	"golang.org/x/tools/go/ssa"
 )
 
@@ -31,6 +33,15 @@ func resolveUp(p *Prog, fn *ssa.Function, v ssa.Value, depth int) []*Org {
 func resolveUpR(p *Prog, r *Resolver, fn *ssa.Function, v ssa.Value, depth int) []*Org {
 	var out []*Org
 	for _, a := range r.Of(v).Alts() {
+		if a.K == "field" && depth <= 3 {
+			// a field of a struct parameter / receiver that carries wiring
+			// values (workers as methods of a struct built by the wiring
+			// function): the value the field was initialised with
+			if vals := carrierFieldUp(p, a, depth); len(vals) > 0 {
+				out = append(out, vals...)
+				continue
+			}
+		}
 		prm, isPrm := a.V.(*ssa.Parameter)
 		if a.K != "param" || !isPrm || depth > 3 {
 			out = append(out, a)
@@ -79,6 +90,99 @@ func cmdBody(p *Prog, fn *ssa.Function) []*ssa.Function {
 			seen[sc] = true
 			out = append(out, sc)
 		}
+	}
+	return out
+}
+
+
+// carrierFieldUp: a is a field path on a parameter (or method receiver) of a
+// function: the origins of the values that field was initialised with in the
+// struct literals handed to the function at its static call sites, or bound
+// as the receiver of a method value. nil when that cannot be established.
+func carrierFieldUp(p *Prog, a *Org, depth int) []*Org {
+	var addr ssa.Value
+	switch x := a.V.(type) {
+	case *ssa.UnOp:
+		addr = x.X
+	case *ssa.FieldAddr:
+		addr = x
+	default:
+		return nil
+	}
+	var path []int
+	cur := addr
+	for {
+		fa, ok := cur.(*ssa.FieldAddr)
+		if !ok {
+			break
+		}
+		path = append([]int{fa.Field}, path...)
+		cur = fa.X
+	}
+	prm, ok := cur.(*ssa.Parameter)
+	if !ok || len(path) == 0 {
+		return nil
+	}
+	owner := prm.Parent()
+	idx := -1
+	for i, q := range owner.Params {
+		if q == prm {
+			idx = i
+		}
+	}
+	var structVals []ssa.Value // struct pointers handed to owner as that parameter
+	var holders []*ssa.Function
+	for _, ci := range staticCallers(p, owner) {
+		if ci.Parent().Synthetic != "" && unwrapBound(ci.Parent()) == owner {
+			continue // the bound-method wrapper itself: handled through its bindings below
+		}
+		if idx >= 0 && idx < len(ci.Common().Args) {
+			structVals = append(structVals, ci.Common().Args[idx])
+			holders = append(holders, ci.Parent())
+		}
+	}
+	if idx == 0 && owner.Signature.Recv() != nil {
+		for _, g := range p.AllRepoFuncs() {
+			if !p.InDaemon(g) {
+				continue
+			}
+			allInstrs(g, func(in ssa.Instruction) {
+				mc, ok := in.(*ssa.MakeClosure)
+				if !ok || len(mc.Bindings) == 0 {
+					return
+				}
+				if f, ok := mc.Fn.(*ssa.Function); ok && f != owner && unwrapBound(f) == owner {
+					structVals = append(structVals, mc.Bindings[0])
+					holders = append(holders, g)
+				}
+			})
+		}
+	}
+	if os.Getenv("AMDEBUG") != "" {
+		fmt.Fprintf(os.Stderr, "carrierFieldUp %s owner=%s idx=%d path=%v structVals=%d\n", a.String(), owner.String(), idx, path, len(structVals))
+	}
+	if len(structVals) == 0 {
+		return nil
+	}
+	var out []*Org
+	for i, sv := range structVals {
+		sr := NewResolver(p)
+		bo := sr.Of(sv)
+		al, ok := bo.V.(*ssa.Alloc)
+		if os.Getenv("AMDEBUG") != "" {
+			fmt.Fprintf(os.Stderr, "  struct value %s -> %s (%T)\n", sv.Name(), bo.String(), bo.V)
+		}
+		if bo.K != "alloc" || !ok {
+			return nil
+		}
+		val, vr := sr.allocPathValue(al, path, 0)
+		if os.Getenv("AMDEBUG") != "" {
+			fmt.Fprintf(os.Stderr, "  path value %v\n", val)
+		}
+		if val == nil {
+			return nil
+		}
+		out = append(out, resolveUpR(p, vr, holders[i], val, depth+1)...)
 	}
 	return out
 }
